@@ -212,7 +212,6 @@ func build(c *Case) (*scenario, error) {
 		case "getprompt":
 			s.op = func([]util.Option) (string, error) { return d.GetPrompt() }
 			s.wantResult = "r7>"
-			s.next = nil
 		case "cmd":
 			s.perOp = true
 			s.op = func(o []util.Option) (string, error) {
@@ -239,7 +238,6 @@ func build(c *Case) (*scenario, error) {
 		case "interactive":
 			s.perOp = true
 			s.single = false
-			s.next = nil
 			s.op = func(o []util.Option) (string, error) {
 				r, e := d.SendInteractive([]*channel.SendInteractiveEvent{
 					{ChannelInput: "q " + c.Cmd, ChannelResponse: `\[y/n\]:`},
@@ -279,6 +277,15 @@ func build(c *Case) (*scenario, error) {
 		s.closeF = func() { _ = d.Close() }
 		s.trailing = 1
 		s.lines = dev.LineStrings
+		s.next = func() (string, error) {
+			r, e := d.SendCommand(c.NextCmd)
+			if e != nil {
+				return "", e
+			}
+
+			return r.Result, nil
+		}
+		s.wantNext = "next result"
 
 		switch c.Op {
 		case "acquire", "acquire-auth":
@@ -340,6 +347,14 @@ func build(c *Case) (*scenario, error) {
 		}
 		s.trailing = 1
 		s.single = true
+		s.next = func() (string, error) {
+			r, e := d.GetConfig("running")
+			if e != nil {
+				return "", e
+			}
+
+			return r.Result, nil
+		}
 
 		switch c.Op {
 		case "nc-open":
@@ -643,7 +658,7 @@ func run(c Case) ev.Verdict {
 
 	// recovery: the timed-out operation consumes nothing more; once the device catches up the next
 	// exchange returns its own result
-	if s.next != nil && s.inputClean != nil && s.inputClean() && len(s.lines()) > 0 && s.lines()[len(s.lines())-1] == c.Cmd {
+	if s.next != nil && s.wantNext != "" && (c.Op == "cmd" || c.Op == "cmds") && s.inputClean != nil && s.inputClean() && len(s.lines()) > 0 && s.lines()[len(s.lines())-1] == c.Cmd {
 		time.Sleep(50 * time.Millisecond)
 		s.pipe.ClearFault()
 		time.Sleep(200 * time.Millisecond)
